@@ -118,11 +118,11 @@ message P {
   optional E e = 1;
   E message = 2;
 }
-''', ["message", "field", "enum", "enum_alias", "synthetic_oneof", "reserved_range", "reserved_name"], [])
+''', ["message", "field", "enum", "enum_alias", "synthetic_oneof"], [])
 
 SKEL["copt"] = ('''syntax = "proto2";
 message M {
-  optional int32 a = 1 [default = -5, deprecated = true, json_name = "A"];
+  optional int32 a = 1 [default = -5, deprecated = true, json_name = "NAME"];
   optional string s = 2 [default = "x" "y"];
   optional double d = 3 [default = -inf];
   repeated int32 r = 4 [packed = true];
@@ -182,7 +182,7 @@ enum E {
   E_ONE = 1;
   reserved E_OLD;
 }
-''', ["message", "field", "extension_range", "extension", "delimited", "legacy_required", "reserved_range", "reserved_name", "enum"], [])
+''', ["message", "field", "extension_range", "extension", "delimited", "legacy_required", "reserved_name", "enum"], [])
 
 SKEL["odd"] = ('''syntax = "proto3";
 ;
